@@ -1017,15 +1017,25 @@ func rulePairedEdges(c *Ctx, rule string) {
 	// the topological sort's counter is the number of reverse edges
 	if ts := genFn(c, rule, "(*Graph).topologicalSortIter"); ts != nil {
 		okCount := false
+		nInit, badInit := 0, ""
 		for _, st := range storesToField(withClosures(ts), "internal/kessoku.requireCounter.count") {
 			s := newSym(L, map[string]bool{})
 			t := strings.Join(s.eval(st.Val), "|")
+			if strings.Contains(t, "requireCounter.count(") {
+				continue // the decrement
+			}
+			nInit++
 			if strings.HasPrefix(t, "builtin len(lookup(field:internal/kessoku.Graph.reverseEdges(") {
 				okCount = true
+			} else {
+				badInit = t
 			}
 		}
+		if badInit != "" {
+			okCount = false
+		}
 		// local struct type: field key may be rendered differently; fall back to scanning len() calls
-		if !okCount {
+		if !okCount && nInit == 0 {
 			for _, f2 := range withClosures(ts) {
 				for _, cs := range callsIn(f2) {
 					if cs.callee == "builtin len" {
@@ -1037,7 +1047,7 @@ func rulePairedEdges(c *Ctx, rule string) {
 				}
 			}
 		}
-		c.check(okCount, rule, "topologicalSortIter:count-from-reverseEdges", L.pos(ts.Pos()), "a node becomes ready when as many arguments were provided as it has reverse edges", "requireCount = len(g.reverseEdges[n])")
+		c.check(okCount, rule, "topologicalSortIter:count-from-reverseEdges", L.pos(ts.Pos()), "a node becomes ready when as many arguments were provided as it has reverse edges (one per parameter, repetitions included)", "requireCount = len(g.reverseEdges[n]); found: "+badInit)
 	}
 }
 
